@@ -218,6 +218,8 @@ theorem estimate_normal_equations (s : Spec) (dof : Bool) (Y X : OMat) (pr : Opt
   · cases h
   · split at h
     · cases h
+    split at h
+    · cases h
     · rename_i beta hols
       generalize ((fitted s Y X).length : Int) - (if dof = true then (dofCount s : Int) else 0) = denom at h
       split at h
